@@ -99,6 +99,46 @@ Fixpoint run_conv (ta tb : transport) (msgs : list (bool * Noise.bytes)) : list 
     end
   end.
 
+(** the same on generated payloads (splitmix64 words, little endian: the generator of the Rust
+    harness), printing SHA-256 digests instead of the data: used for maximal-size messages *)
+Definition sm64 (s : Z) : Z * Z :=
+  let m := 2 ^ 64 in
+  let s' := (s + 11400714819323198485) mod m in
+  let z := s' in
+  let z := (Z.lxor z (Z.shiftr z 30) * 13787848793156543929) mod m in
+  let z := (Z.lxor z (Z.shiftr z 27) * 10723151780598845931) mod m in
+  (s', Z.lxor z (Z.shiftr z 31)).
+Fixpoint gen_words (n : nat) (s : Z) : Noise.bytes :=
+  match n with
+  | O => []
+  | S k => let '(s', z) := sm64 s in le_n 8 z ++ gen_words k s'
+  end.
+Definition gen_payload (len : nat) (seed : Z) : Noise.bytes :=
+  firstn len (gen_words (len / 8 + 1) seed).
+
+Fixpoint run_conv_gen (ta tb : transport) (msgs : list (bool * (Z * Z))) : list (list string * list Z) :=
+  match msgs with
+  | [] => []
+  | (dir, (len, seed)) :: rest =>
+    let m := gen_payload (Z.to_nat len) seed in
+    let '(s, r) := if dir then (ta, tb) else (tb, ta) in
+    match enc_msg i_hkdf2 i_seal s m with
+    | None => [(["ENC-ERR"], [])]
+    | Some (c, s') =>
+      match dec_header i_hkdf2 i_open r (firstn 18 c) with
+      | None => [(["HDR-ERR"], [])]
+      | Some (len', r1) =>
+        match dec_body i_open r1 (skipn 18 c) with
+        | None => [(["BODY-ERR"], [])]
+        | Some (m', r') =>
+          let '(ta', tb') := if dir then (s', r') else (r', s') in
+          ([hx (sha256 c); hx (sha256 m')] ++ show_transport ta' ++ show_transport tb', len' :: show_nonces ta' ++ show_nonces tb')
+          :: run_conv_gen ta' tb' rest
+        end
+      end
+    end
+  end.
+
 (** the receiver alone on an arbitrary (possibly corrupted) frame: "OK len body" or where it fails *)
 Definition recv_frame (t : transport) (c : Noise.bytes) : list string :=
   if (length c <? 18)%nat then ["TOO-SHORT"]
